@@ -121,3 +121,5 @@ impl BytesMut {
 }
 // a BytesMut's length is a usize
 pub axiom fn axiom_bytes_mut_len_bound(b: &BytesMut) ensures b@.len() <= usize::MAX;
+impl Clone for BytesMut { #[verifier::external_body] fn clone(&self) -> (r: Self) ensures r@ == self@ { unimplemented!() } }
+impl Clone for Bytes { #[verifier::external_body] fn clone(&self) -> (r: Self) ensures r@ == self@ { unimplemented!() } }
